@@ -1,12 +1,14 @@
 /* wcoll engine: read_wcoll() of the repository on real files in a scratch directory.
  * case:  wcoll <dirhex> <filehex>      (chdir to dir, read_wcoll(file, NULL))
  * answer: OK W=<number of warnings> <hosts hex,...>  |  FATAL
+ *         HANG ... (child killed by its 5 s alarm)  |  CRASHED signal <n>
  * Each case runs in a forked child because read errors call errx() -> exit(1). */
 #include <stdio.h>
 #include <stdlib.h>
 #include <string.h>
 #include <unistd.h>
 #include <sys/wait.h>
+#include <signal.h>
 #include "src/common/hostlist.h"
 #include "src/common/err.h"
 #include "src/pdsh/wcoll.h"
@@ -38,6 +40,7 @@ int main(void)
             close(po[0]); close(pe[0]);
             dup2(po[1], 1); dup2(pe[1], 2);
             if (chdir(dir) < 0) _exit(3);
+            alarm(5);                   /* an include loop must not hang the run: SIGALRM -> HANG */
             hl = read_wcoll(file, NULL);
             if (!hl) _exit(4);
             it = hostlist_iterator_create(hl);
@@ -64,7 +67,9 @@ int main(void)
                 int w = 0; char *p = eb;
                 while ((p = strstr(p, "warning:"))) { w++; p += 8; }
                 printf("OK W=%d %s\n", w, ob);
-            } else if (WIFSIGNALED(st))
+            } else if (WIFSIGNALED(st) && WTERMSIG(st) == SIGALRM)
+                printf("HANG no answer within 5 s\n");
+            else if (WIFSIGNALED(st))
                 printf("CRASHED signal %d\n", WTERMSIG(st));
             else
                 printf("FATAL\n");
